@@ -1,12 +1,14 @@
 use crate::runtime::list::get_access_addr;
 use crate::runtime::utilities::{next_ref, push_unit};
-use garnish_lang_traits::{GarnishData, GarnishDataType, Instruction, RuntimeError};
+use garnish_lang_traits::{ErrorType, GarnishData, GarnishDataType, Instruction, RuntimeError};
 
 pub fn access<Data: GarnishData>(this: &mut Data) -> Result<Option<Data::Size>, RuntimeError<Data::Error>> {
     let right_addr = next_ref(this)?;
     let left_addr = next_ref(this)?;
 
-    match (this.get_data_type(left_addr.clone())?, this.get_data_type(right_addr.clone())?) {
+    let (left_type, right_type) = (this.get_data_type(left_addr.clone())?, this.get_data_type(right_addr.clone())?);
+
+    match (left_type, right_type) {
         (GarnishDataType::Symbol, GarnishDataType::Symbol)
         | (GarnishDataType::Symbol, GarnishDataType::SymbolList)
         | (GarnishDataType::SymbolList, GarnishDataType::Symbol)
@@ -28,9 +30,16 @@ pub fn access<Data: GarnishData>(this: &mut Data) -> Result<Option<Data::Size>, 
         | (GarnishDataType::Concatenation, GarnishDataType::Number)
         | (GarnishDataType::Concatenation, GarnishDataType::Symbol)
         | (GarnishDataType::Slice, GarnishDataType::Number)
-        | (GarnishDataType::Slice, GarnishDataType::Symbol) => match get_access_addr(this, right_addr, left_addr)? {
-            None => push_unit(this)?,
-            Some(i) => this.push_register(i)?,
+        | (GarnishDataType::Slice, GarnishDataType::Symbol) => match get_access_addr(this, right_addr.clone(), left_addr.clone()) {
+            // no access defined for this pair of types after all, treat like any other undefined combination
+            Err(e) if e.get_type() == ErrorType::UnsupportedOpTypes => {
+                if !this.defer_op(Instruction::Access, (left_type, left_addr), (right_type, right_addr))? {
+                    push_unit(this)?
+                }
+            }
+            Err(e) => Err(e)?,
+            Ok(None) => push_unit(this)?,
+            Ok(Some(i)) => this.push_register(i)?,
         },
         (l, r) => {
             if !this.defer_op(Instruction::Access, (l, left_addr), (r, right_addr))? {
